@@ -96,8 +96,8 @@ def gen_case(rng):
     if method is not None:
         new = sorted(set([v + rng.choice([0, 0.5, -0.5, 3, -3, 0.25, 40]) for v in new] or [1.0]))
     return {"mode": mode, "a": sp, "k": k, "new": new, "form": rng.choice(['list', 'arr', 'Axis']),
-            "fill": rng.choice([float('nan'), float('nan'), -99, 0.5]), "raise_error": rng.random() < 0.25,
-            "method": method, "axis_by_pos": rng.random() < 0.5}
+            "fill": rng.choice([float('nan'), float('nan'), -99, 0.5, 0, 0.0, False]), "raise_error": rng.random() < 0.25,
+            "method": method, "axis_by_pos": rng.random() < 0.5, "axis_negative": rng.random() < 0.4}
 
 
 def check(case, ctx):
@@ -124,7 +124,7 @@ def check(case, ctx):
     newkind = gen.kind_of(new) if new else kind
     arr = gen.np_labels(new, newkind)
     arg = new if form == 'list' else arr if form == 'arr' else da.Axis(arr, d)
-    axis_arg = k if case["axis_by_pos"] else d
+    axis_arg = (k - m.ndim if case.get("axis_negative") else k) if case["axis_by_pos"] else d      # position, also counted from the end
     kw = {}
     if not (isinstance(fill, float) and fill != fill) or case["raise_error"]:
         kw = dict(fill_value=fill, raise_error=case["raise_error"])
